@@ -150,6 +150,8 @@ pub struct Contents {
     /// memory_usage() right after recovery and the sum the recovered records account for
     pub memory_usage: usize,
     pub memory_expected: usize,
+    /// C05: exact partition of the data area right after recovery (None = exact)
+    pub partition_problem: Option<(String, String)>,
 }
 
 pub struct Opened {
@@ -199,6 +201,7 @@ pub fn open_image(img: &[u8], cfg: &Config, now: u64, record: bool, want_post: b
         }
         extents.push((r.sector, layout::record_blocks(snap.format_version, r.key.len(), r.value_len) as u64));
     }
+    let partition_problem = partition_problem(&snap);
     let len = store.len();
     let memory_usage = store.memory_usage();
     let memory_expected: usize = snap.records.iter().map(|r| seq::rec_overhead() + r.key.len() + r.value_len).sum();
@@ -215,7 +218,58 @@ pub fn open_image(img: &[u8], cfg: &Config, now: u64, record: bool, want_post: b
     if records != len {
         return Err(format!("len-mismatch: len()={len} but {records} records are indexed"));
     }
-    Ok(Opened { contents: Contents { map, len, range_len, extents, memory_usage, memory_expected }, recovery_entries, post_image })
+    Ok(Opened { contents: Contents { map, len, range_len, extents, memory_usage, memory_expected, partition_problem }, recovery_entries, post_image })
+}
+
+/// C05 structural oracle on a store snapshot taken while nothing is in flight: every data block
+/// belongs to exactly one live extent or to the free pool, free runs are merged, the usage counter
+/// equals the live blocks.
+pub fn partition_problem(snap: &feoxdb::core::store::verif::VerifSnapshot) -> Option<(String, String)> {
+    let total = snap.device_size / 4096;
+    let ver = snap.format_version;
+    let mut owner: Vec<u8> = vec![0; total as usize];
+    let mut live_blocks = 0u64;
+    for r in &snap.records {
+        let blocks = layout::record_blocks(ver, r.key.len(), r.value_len) as u64;
+        if r.sector == 0 {
+            continue; // not flushed yet: owns nothing on the device
+        }
+        if r.sector < 16 || r.sector + blocks > total {
+            return Some(("extent-out-of-bounds".into(), format!("key {} extent {}+{} outside the data area 16..{}", model::short(&r.key), r.sector, blocks, total)));
+        }
+        for b in r.sector..r.sector + blocks {
+            if owner[b as usize] != 0 {
+                return Some(("block-doubly-owned".into(), format!("block {b} belongs to two live records (second: {})", model::short(&r.key))));
+            }
+            owner[b as usize] = 1;
+        }
+        live_blocks += blocks;
+    }
+    let mut prev_end = 0u64;
+    let mut free_blocks = 0u64;
+    for (s, n) in &snap.free_runs {
+        if *s < 16 || s + n > total || *n == 0 {
+            return Some(("free-run-out-of-bounds".into(), format!("free run {s}+{n} outside the data area")));
+        }
+        if *s == prev_end && prev_end != 0 {
+            return Some(("free-runs-not-merged".into(), format!("adjacent free runs meeting at {s} are not merged")));
+        }
+        prev_end = s + n;
+        for b in *s..s + n {
+            if owner[b as usize] != 0 {
+                return Some(("block-live-and-free".into(), format!("block {b} is both in a live extent and in the free pool")));
+            }
+            owner[b as usize] = 2;
+        }
+        free_blocks += n;
+    }
+    if let Some(b) = (16..total).find(|b| owner[*b as usize] == 0) {
+        return Some(("block-leaked".into(), format!("block {b} belongs to no live record and is not free ({live_blocks} live + {free_blocks} free of {} data blocks)", total - 16)));
+    }
+    if snap.disk_usage != live_blocks * 4096 {
+        return Some(("disk-usage-counter".into(), format!("disk usage counter {} != live blocks {live_blocks} * 4096", snap.disk_usage)));
+    }
+    None
 }
 
 // ------------------------------------------------------------------------------------------
@@ -536,12 +590,22 @@ pub fn explore(run: &WorkloadRun, case: &Case, which: &str, budget: &Budget, sta
                 Err(e) => {
                     let sig = if e.starts_with("len-mismatch") { "len-mismatch".to_string() } else { format!("open-failed:{}", e.split(':').next().unwrap_or("?")) };
                     stats.hit("open_failed");
-                    if which != "C04" && which != "C13" {
+                    if which != "C04" && which != "C13" && which != "C05" {
                         return Some(CrashFailure { property_hint: "C03", signature: sig, msg: format!("crash image cannot be reopened: {e}"), spec, nested: vec![] });
                     }
                 }
                 Ok(o) => {
-                    if which == "C13" {
+                    if which == "C05" {
+                        if let Some((sig, msg)) = &o.contents.partition_problem {
+                            return Some(CrashFailure { property_hint: "C05", signature: format!("after-recovery-{sig}"), msg: format!("right after recovering a crash image: {msg}"), spec, nested: vec![] });
+                        }
+                        if let Ok(dec) = layout::decode_image(&img) {
+                            if dec.all_records.len() > dec.live.len() {
+                                stats.nontrivial_c04.insert(fp);
+                                stats.hit("c05.image_with_duplicate_generations");
+                            }
+                        }
+                    } else if which == "C13" {
                         if o.contents.memory_usage != o.contents.memory_expected {
                             let dup = o.recovery_entries.len();
                             let _ = dup;
